@@ -314,8 +314,32 @@ def main(argv=None):
             if out.get("match"):
                 n_witness_ok += 1
             else:
-                errors.append("%s: path witness disagrees with the real build: inputs=%s expected=%s got=%s"
-                              % (c.name, json.dumps(w["inputs"])[:300], json.dumps(w["outputs"])[:300], json.dumps(out)[:300]))
+                # the real build does not return what the Python-semantics execution of the same source returns on this
+                # path.  If the property's own concrete oracle (the replay function) also rejects the real result -- e.g.
+                # the compiled code raises where the source, run as Python, does not -- this is a violation of the
+                # property by the real code; otherwise the environment model is wrong (harness error).
+                confirmed = None
+                if c.replay:
+                    rq = {"kind": "replay", "target": c.replay, "case": c.name, "params": _js(c.params), "inputs": w["inputs"],
+                          "assertion": "path witness: the real build differs from the Python-semantics result"}
+                    rout = _driver([rq], env)[0]
+                    if rout.get("violation") or rout.get("crashed"):
+                        confirmed = (rq, rout)
+                if confirmed:
+                    rq, rout = confirmed
+                    rec = {"property": pid, "case": c.name, "assertion": rq["assertion"], "kind": "witness", "inputs": w["inputs"],
+                           "real_build": rout, "known": None}
+                    h = hashlib.sha1(json.dumps([c.name, "witness", w["inputs"]], sort_keys=True).encode()).hexdigest()[:10]
+                    d = os.path.join(VERIF, "replays", pid)
+                    os.makedirs(d, exist_ok=True)
+                    path = os.path.join(d, "%s-%s.json" % (c.name.replace("/", "_"), h))
+                    with open(path, "w") as f:
+                        json.dump({"request": rq, "env": env, "record": rec}, f, indent=1)
+                    if len([v for v in violations if v[1]["case"] == c.name and v[1]["kind"] == "witness"]) < 2:
+                        violations.append((path, rec))
+                else:
+                    errors.append("%s: path witness disagrees with the real build: inputs=%s expected=%s got=%s"
+                                  % (c.name, json.dumps(w["inputs"])[:300], json.dumps(w["outputs"])[:300], json.dumps(out)[:300]))
 
     wall = round(time.time() - t0, 2)
     status = "held"
